@@ -159,6 +159,14 @@ def irrelevant_options(rng):
     return kw
 
 
+def limit_source(rng, cfg):
+    """where the failure limit comes from: kwarg max_failures / kwarg stop_after_first_failure / config file / both (same value)"""
+    n = cfg.get("maxfail")
+    if n is not None:
+        cfg["maxfail_src"] = rng.choice(["kwarg", "kwarg", "config", "both"] + (["kwarg_stop", "config_stop"] if n == 1 else []))
+    return cfg
+
+
 def gen_prog_case(rng):
     """programmatic-tasks stream: the task functions of a one-module project are handed to build(tasks=[…]) as objects — once each,
     with one of them twice, or next to `paths` that collect the same functions again"""
@@ -183,6 +191,7 @@ def gen_prog_case(rng):
         cfg["force"] = True
     if rng.random() < 0.25:
         cfg["maxfail"] = rng.choice([1, 2])
+        limit_source(rng, cfg)
     steps = [["build", cfg, {}, irrelevant_options(rng)]]
     if rng.random() < 0.5:
         steps.append(["build", dict(cfg), {}, irrelevant_options(rng)])
@@ -202,6 +211,7 @@ def gen_case(rng, shape=None):
         cfg["dry"] = True
     if rng.random() < 0.25:
         cfg["maxfail"] = rng.choice([1, 2])
+        limit_source(rng, cfg)
     if rng.random() < 0.2:
         cfg["k"] = " or ".join(project.tname(t["id"]) for t in rng.sample(spec["tasks"], rng.randint(1, 2)))
     kw_extra = {}
@@ -343,6 +353,7 @@ def run_case(server, case):
                 continue
             cfg, kw_extra = step[1], step[2]
             project.clear_log(root)
+            project.write_config_file(root, cfg)
             pre = project.snapshot_nodes(root, spec)
             kw = builder.cfg_to_kw(cfg)
             kw.update(step[3] if len(step) > 3 else {})      # options that must be irrelevant
